@@ -76,3 +76,25 @@ def canonical_dag(nodes, directed, undirected):
 def d_separated(nodes, directed, undirected, a, b, cond) -> bool:
     """True d-separation of a and b given cond in the canonical DAG (networkx's own algorithm)."""
     return bool(nx.is_d_separator(canonical_dag(nodes, directed, undirected), {a}, {b}, set(cond)))
+
+
+# ------------------------------------------------------------------------------------------------ textbook graphs
+TEXTBOOK = {
+    "napkin": (["W1", "W2", "X", "Y"], [("W1", "W2"), ("W2", "X"), ("X", "Y")], [("W1", "X"), ("W1", "Y")]),
+    "frontdoor": (["X", "M", "Y"], [("X", "M"), ("M", "Y")], [("X", "Y")]),
+    "backdoor": (["Z", "X", "Y"], [("Z", "X"), ("Z", "Y"), ("X", "Y")], []),
+    "bow": (["X", "Y"], [("X", "Y")], [("X", "Y")]),
+    "iv": (["Z", "X", "Y"], [("Z", "X"), ("X", "Y")], [("X", "Y")]),
+    "verma": (["A", "B", "C", "D"], [("A", "B"), ("B", "C"), ("C", "D")], [("B", "D")]),
+    "m": (["A", "B", "M", "X", "Y"], [("X", "Y")], [("A", "X"), ("A", "M"), ("B", "M"), ("B", "Y")]),
+    "tikka_3a": (["X", "Z", "W", "Y"], [("X", "Z"), ("Z", "Y"), ("W", "Z")], [("X", "Y"), ("W", "Y")]),
+    "shpitser_2e": (["X", "Z1", "Z2", "Y"], [("X", "Z1"), ("Z1", "Y"), ("Z2", "X"), ("Z2", "Z1"), ("Z2", "Y")], [("X", "Z2"), ("X", "Y"), ("Z2", "Y")]),
+    "line7": (["A", "B", "C", "D"], [("A", "D"), ("B", "C"), ("C", "D")], [("A", "B"), ("B", "D")]),
+    "double_frontdoor": (["X", "M1", "M2", "Y"], [("X", "M1"), ("M1", "M2"), ("M2", "Y")], [("X", "Y"), ("M1", "Y")]),
+    "chain_conf": (["A", "B", "C", "D", "E"], [("A", "B"), ("B", "C"), ("C", "D"), ("D", "E")], [("A", "C"), ("B", "D"), ("C", "E")]),
+    "seed_like_1": (["S1", "X", "Y", "W", "R"], [("S1", "X"), ("X", "Y"), ("S1", "Y"), ("W", "R"), ("R", "S1")], [("S1", "Y"), ("X", "W"), ("W", "Y")]),
+    "district_late": (["X", "A", "Z1", "Z2", "B"], [("X", "A"), ("Z1", "Z2"), ("Z2", "B")], [("A", "B")]),
+    "district_late_y": (["X", "A", "Z1", "Z2", "B", "Y"], [("X", "A"), ("Z1", "Z2"), ("Z2", "B"), ("A", "Y"), ("B", "Y")], [("A", "B")]),
+    "isolated": (["X", "Y", "Z"], [("X", "Y")], []),
+    "two_districts": (["X", "A", "B", "Y"], [("X", "A"), ("A", "Y"), ("X", "B"), ("B", "Y")], [("X", "Y"), ("A", "B")]),
+}
